@@ -1,0 +1,124 @@
+//go:build verif
+
+// Contracts for the verification machinery in /verif (comment-only; no declarations).
+// Dial path and connection table: properties C01 (a dial for P never yields a connection to anyone else),
+// C10 (gater consulted before any dial / admission), C12 (limited connections are never mistaken for direct).
+
+package swarm
+
+//@ pred connsOK(s *Swarm) = forall q peer.ID, i int :: 0 <= i && i < len(s.conns.m[q]) ==>
+//@     s.conns.m[q][i] != nil && s.conns.m[q][i].conn.RemotePeer() == q
+
+//@ lockinv Swarm.conns(s *Swarm) = connsOK(s)
+
+//@ func (c *Conn) Stat
+//@ prop C12 C04
+//@ ensures result.Limited == c.stat.Limited && result.Direction == c.stat.Direction
+//@ modifies nothing
+
+//@ func (s *Swarm) TransportForDialing
+//@ prop C12
+//@ trusted
+//@ pure
+
+//@ func (s *Swarm) bestConnToPeer
+//@ prop C01 C12
+//@ loop 0 invariant best != nil ==> (exists i int :: 0 <= i && i < len(s.conns.m[p]) && best == s.conns.m[p][i])
+//@ ensures result != nil ==> (exists i int :: 0 <= i && i < len(s.conns.m[p]) && result == s.conns.m[p][i])
+//@ ensures result != nil ==> result.conn.RemotePeer() == p
+//@ modifies nothing
+
+//@ func (s *Swarm) bestAcceptableConnToPeer
+//@ prop C01 C12
+//@ ensures result != nil ==> result.conn.RemotePeer() == p
+//@ ensures result != nil && nth(network.GetForceDirectDial(ctx), 0) ==> !result.conn.Transport().Proxy()
+//@ modifies nothing
+
+//@ func (s *Swarm) dialPeer
+//@ prop C01 C10 C12
+//@ ensures result1 == nil && result0 != nil ==> result0.conn.RemotePeer() == p
+//@ ensures result1 == nil && result0 != nil && !called(Dial, 0) && nth(network.GetForceDirectDial(ctx), 0) ==> !result0.conn.Transport().Proxy()
+//@ ensures called(Dial, 0) ==> old(s.gater) == nil || old(s.gater).InterceptPeerDial(p)
+//@ ensures called(Dial, 0) ==> p != old(s.local)
+//@ noframe
+
+//@ func (ds *dialSync) Dial
+//@ prop C01 C05
+//@ noframe
+
+//@ func (s *Swarm) dialAddr
+//@ prop C01
+//@ ensures result1 == nil ==> result0 != nil && result0.RemotePeer() == p
+//@ ensures result1 == nil ==> (called(DialWithUpdates, 0) && arg(DialWithUpdates, 0, 3) == p && arg(DialWithUpdates, 0, 2) == addr) ||
+//@         (called(Dial, 0) && arg(Dial, 0, 3) == p && arg(Dial, 0, 2) == addr)
+//@ noframe
+
+//@ func (s *Swarm) filterKnownUndialables
+//@ prop C10
+//@ ensures forall j int :: 0 <= j && j < len(goodAddrs) ==> s.gater == nil || s.gater.InterceptAddrDial(p, goodAddrs[j])
+//@ ensures forall j int :: 0 <= j && j < len(goodAddrs) ==> s.TransportForDialing(goodAddrs[j]) != nil
+//@ noframe
+
+//@ func (s *Swarm) addrsForDial
+//@ prop C10 C12
+//@ ensures err == nil ==> forall j int :: 0 <= j && j < len(goodAddrs) ==> s.gater == nil || s.gater.InterceptAddrDial(p, goodAddrs[j])
+//@ ensures err == nil && nth(network.GetForceDirectDial(ctx), 0) ==>
+//@         forall j int :: 0 <= j && j < len(goodAddrs) ==> !s.TransportForDialing(goodAddrs[j]).Proxy()
+//@ noframe
+
+//@ func (s *Swarm) connectednessUnlocked
+//@ prop C12
+//@ loop 0 invariant haveLimited ==> (exists i int :: 0 <= i && i < idx0 && s.conns.m[p][i].stat.Limited)
+//@ ensures result == network.Connected ==> exists i int :: 0 <= i && i < len(s.conns.m[p]) && !s.conns.m[p][i].stat.Limited
+//@ ensures result == network.Limited ==> exists i int :: 0 <= i && i < len(s.conns.m[p]) && s.conns.m[p][i].stat.Limited
+//@ ensures result == network.Connected || result == network.Limited || result == network.NotConnected
+//@ ensures len(s.conns.m[p]) == 0 ==> result == network.NotConnected
+//@ modifies nothing
+
+//@ func (c *Conn) NewStream
+//@ prop C12 C04
+//@ ensures result1 == nil ==> !c.stat.Limited || nth(network.GetAllowLimitedConn(ctx), 0)
+//@ ensures result1 != nil && called(OpenStream, 0) && ret(OpenStream, 0, 1) == nil ==> called(Done, 0) && arg(Done, 0, 0) == ret(OpenStream, 0, 0)
+//@ ensures result1 == nil ==> called(openAndAddStream, 0) && ret(openAndAddStream, 0, 1) == nil && arg(openAndAddStream, 0, 2) == ret(OpenStream, 0, 0)
+//@ noinline openAndAddStream
+//@ noframe
+
+//@ func (c *Conn) openAndAddStream
+//@ prop C04
+//@ noframe
+
+//@ func (c *Conn) addStream
+//@ prop C04
+//@ ensures result1 != nil ==> called(Reset, 0) && arg(Reset, 0, 0) == ts
+//@ ensures result1 == nil ==> result0 != nil && result0.scope == scope && result0.stream == ts && result0.conn == c
+//@ noframe
+
+//@ func (s *Swarm) waitForDirectConn
+//@ prop C12
+//@ ensures result1 == nil && result0 != nil ==> !result0.stat.Limited
+//@ noframe
+
+//@ func (s *Swarm) NewStream
+//@ prop C12
+//@ callsite NewStream#0 requires arg0 != nil ==> (!arg0.stat.Limited || nth(network.GetAllowLimitedConn(ctx), 0))
+//@ ensures result1 == nil ==> called(NewStream, 0) && ret(NewStream, 0, 1) == nil
+//@ ensures called(dialPeer, 0) ==> !nth(network.GetNoDial(ctx), 0)
+//@ noframe
+
+//@ func (s *Swarm) removeConn
+//@ prop C12 C06
+//@ trusted
+//@ noframe
+
+//@ func (c *Conn) Close
+//@ prop C04 C12
+//@ noframe
+
+//@ func (s *Swarm) addConn
+//@ prop C06 C10 C12
+//@ ensures result1 == nil ==> result0 != nil && result0.conn == tc && result0.stat.Limited == isLimited
+//@ ensures result1 == nil && s.gater != nil ==> called(InterceptUpgraded, 0) && ret(InterceptUpgraded, 0, 0)
+//@ ensures called(InterceptUpgraded, 0) && !ret(InterceptUpgraded, 0, 0) ==> result1 != nil && called(CloseWithError, 0) && arg(CloseWithError, 0, 0) == tc && !called(AddConn, 0)
+//@ callsite AddConn#0 requires arg1 == c && c.conn == tc && (old(s.gater) == nil || (called(InterceptUpgraded, 0) && ret(InterceptUpgraded, 0, 0)))
+//@ callsite start#0 requires called(AddConn, 0) && arg0 == arg(AddConn, 0, 1)
+//@ noframe
